@@ -298,6 +298,13 @@ fn check_error(e: &DynError, r: &mut Report, all_constructions: bool) {
     let id = Uuid::from_u128(0x0123_4567_89ab_4def_8edc_ba98_7654_3210);
     let with = encode(&e.clone().with_instance_id(id));
     check_encoded(e, &with, Some(id), r, "encode+with_instance_id");
+    // the same through the reference impls (`&T: ErrorType`), one and two levels deep
+    let wid = e.clone().with_instance_id(id);
+    r.evaluations += 3;
+    r.transitions += 3;
+    check_encoded(e, &encode(&&wid), Some(id), r, "encode(&&with_instance_id)");
+    check_encoded(e, &encode(&&&wid), Some(id), r, "encode(&&&with_instance_id)");
+    check_encoded(e, &encode(&(&e.clone()).with_instance_id(id)), Some(id), r, "encode((&e).with_instance_id)");
     if e.code.status_code() != model_status(&e.code) {
         r.violation(format!("C17|status-code|{}", e.code.as_str()), format!("{} maps to HTTP {}", e.code.as_str(), e.code.status_code()), json!({"error": describe(e), "via": "status"}));
     }
@@ -314,6 +321,12 @@ fn check_error(e: &DynError, r: &mut Report, all_constructions: bool) {
     let p2 = params_of(&s2);
     check_encoded_kind(e, &s2, Some(id), r, "Error::service_safe");
     check_partition(e, &s2, &p2, false, true, r, "Error::service_safe");
+    let s5 = Error::service("cause", &wid);
+    check_encoded_kind(e, &s5, Some(id), r, "Error::service(&with_instance_id)");
+    check_partition(e, &s5, &params_of(&s5), false, false, r, "Error::service(&with_instance_id)");
+    let s6 = Error::service_safe("cause", &e.clone());
+    check_encoded_kind(e, &s6, None, r, "Error::service_safe(&e)");
+    check_partition(e, &s6, &params_of(&s6), false, true, r, "Error::service_safe(&e)");
     let s3 = Error::propagated_service("cause", with.clone());
     check_partition(e, &s3, with.parameters(), true, false, r, "Error::propagated_service");
     let s4 = Error::propagated_service_safe("cause", with.clone());
